@@ -80,12 +80,13 @@ def analyse(res, scn):
 def check_exec(ctx, name, scn, res, prefix, cost):
     end = res["end"]
 
-    def viol(kind, extra=None):
+    def viol(kind, extra=None, generic=False):
         d = {"scenario": name, "script": scn["script"], "prefix": prefix, "deviations": cost, "end": end, "responses": res["responses"],
              "schedule": [f"{t}:{l}{'(timer)' if to else ''}" for (i, t, l, to) in schedx.executed_ops(res)][:400]}
         if extra:
             d.update(extra)
-        ctx.violation(f"{name}: {kind}", d, cli_cmd="./gv replay <this file>")
+        # the dequeue/reset window is one defect whatever the scenario: its signature does not name the scenario
+        ctx.violation(kind if generic else f"{name}: {kind}", d, cli_cmd="./gv replay <this file>")
 
     for (at, task, text) in res["notes"]:
         if text.startswith("PANIC"):
@@ -107,7 +108,7 @@ def check_exec(ctx, name, scn, res, prefix, cost):
                 window = not any(t == d["worker"] and l == "worker.reset" and d["dequeued_at"] <= i <= si for (i, t, l, to) in ops)
                 viol(f"{what} lost: the eval in flight keeps executing steps after the flag store and does not end `interrupted`"
                      + (" (store landed between the worker's dequeue and its flag reset)" if window else " (store landed after the worker's flag reset)"),
-                     {"request": rid, "store_at": si, "dequeued_at": d["dequeued_at"], "steps_after_store": len(steps_after), "status": d["status"]})
+                     {"request": rid, "store_at": si, "dequeued_at": d["dequeued_at"], "steps_after_store": len(steps_after), "status": d["status"]}, generic=window)
                 return
             if len(steps_after) > 1 and interrupted:
                 viol(f"{what} not prompt: more than one interpreter step ran after the flag store", {"request": rid, "steps_after_store": len(steps_after)})
